@@ -371,6 +371,11 @@ class Normaliser:
         body = strip_docstring(node.body)
         if len(list(ast.walk(ast.Module(body=body, type_ignores=[])))) > 1500 or loop_contains_return(body):
             return None
+        if isinstance(target, FuncInfo) and target.cls is None and '.' not in qual:
+            w = self.memo_wrapper(target, call)
+            if w is not None:
+                node = w
+                body = w.body
         if any(isinstance(n, (ast.Yield, ast.YieldFrom, ast.Global, ast.Nonlocal)) for s in body for n in ast.walk(s)):
             return None
         if node.args.vararg or node.args.kwarg or any(isinstance(a, ast.Starred) for a in call.args) or \
@@ -381,6 +386,108 @@ class Normaliser:
             call.args = [recv] + list(call.args)
             return node, qual, None, True
         return node, qual, bound_self, (isinstance(target, FuncInfo) and target.is_static())
+
+    # ---- memoising wrappers around one call, with a module-level table -------------------------------------------------------
+    def memo_wrapper(self, target, call):
+        """F(params): a remembered G(args).  -> a synthetic `def F(params): return G(args)` when the remembered value is the
+        value for these very arguments (exact key, naming every parameter the call depends on; the table is touched nowhere else);
+        records a memo issue (and returns None) when it is recognisably not; None when F is no such wrapper.
+            global L; if L is None or L[:k] != (p1..pk): L = (p1..pk, G(..)); return L[k]          (most recent call)
+            [key = K]; if key not in C: C[key] = G(..); return C[key]                              (dict)"""
+        node = target.node
+        mod = target.module
+        body = [s for s in strip_docstring(node.body) if not isinstance(s, ast.Global)]
+        params = [a.arg for a in node.args.posonlyargs + node.args.args]
+        if node.args.vararg or node.args.kwarg or node.args.kwonlyargs:
+            return None
+
+        def names(e):
+            return {x.id for x in ast.walk(e) if isinstance(x, ast.Name)}
+
+        def module_only_here(G, inits):
+            """G is assigned at module level only by one of `inits` and mentioned in no other function"""
+            tops = [s for s in mod.tree.body if isinstance(s, ast.Assign) and any(isinstance(t, ast.Name) and t.id == G for t in s.targets)]
+            if len(tops) != 1 or U(tops[0].value).replace(' ', '') not in inits:
+                return False
+            for q, other in mod.funcs.items():
+                if other is target or q.startswith(target.qualname + '.'):
+                    continue
+                if any(isinstance(n, ast.Name) and n.id == G for n in ast.walk(other.node)):
+                    return False
+            for s in mod.tree.body:
+                if s is tops[0] or isinstance(s, (ast.FunctionDef, ast.ClassDef)):
+                    continue
+                if any(isinstance(n, ast.Name) and n.id == G for n in ast.walk(s)):
+                    return False
+            return True
+
+        def synth(value):
+            fn = ast.FunctionDef(name=node.name, args=clone(node.args), body=[ast.Return(value=clone(value))], decorator_list=[], returns=None,
+                                 type_comment=None, type_params=[])
+            ast.copy_location(fn, node)
+            ast.fix_missing_locations(fn)
+            return fn
+        keydef = None
+        if body and isinstance(body[0], ast.Assign) and len(body[0].targets) == 1 and isinstance(body[0].targets[0], ast.Name) and len(body) == 3:
+            keydef = body[0]
+            body = body[1:]
+        if len(body) != 2 or not isinstance(body[0], ast.If) or not isinstance(body[1], ast.Return) or body[0].orelse or len(body[0].body) != 1 \
+                or not isinstance(body[0].body[0], ast.Assign) or len(body[0].body[0].targets) != 1:
+            return None
+        test, store, ret = body[0].test, body[0].body[0], body[1].value
+        # ---- dict form ----------------------------------------------------------------------------------------------------
+        if isinstance(test, ast.Compare) and len(test.ops) == 1 and isinstance(test.ops[0], ast.NotIn) and isinstance(test.comparators[0], ast.Name) \
+                and isinstance(store.targets[0], ast.Subscript) and isinstance(ret, ast.Subscript):
+            C = test.comparators[0].id
+            kt = U(test.left)
+            if U(store.targets[0].value) != C or U(ret.value) != C or U(store.targets[0].slice) != kt or U(ret.slice) != kt:
+                return None
+            if not module_only_here(C, ('{}', 'dict()')):
+                return None
+            K = keydef.value if keydef is not None and keydef.targets[0].id == kt else test.left
+            if keydef is not None and keydef.targets[0].id != kt:
+                return None
+            vdeps = names(store.value) & set(params)
+            kdeps = names(K) & set(params)
+            if vdeps <= kdeps and self.injective_key(K, {}, []):
+                return synth(store.value)
+            self.memo_issues.append((call, C, U(K), sorted(vdeps - kdeps) if not vdeps <= kdeps else ['<key not injective>']))
+            return None
+        # ---- most-recent-call form ---------------------------------------------------------------------------------------------
+        if keydef is not None or not isinstance(store.targets[0], ast.Name) or not isinstance(store.value, ast.Tuple) or \
+                not (isinstance(ret, ast.Subscript) and isinstance(ret.slice, ast.Constant) and isinstance(ret.slice.value, int)):
+            return None
+        L = store.targets[0].id
+        if U(ret.value) != L or not module_only_here(L, ('None',)):
+            return None
+        if not (isinstance(test, ast.BoolOp) and isinstance(test.op, ast.Or) and len(test.values) == 2 and U(test.values[0]).replace(' ', '') == L + 'isNone'):
+            return None
+        stale = test.values[1]
+        elts = store.value.elts
+        idx = ret.slice.value
+        if not (0 <= idx < len(elts)):
+            return None
+        value = elts[idx]
+        vdeps = names(value) & set(params)
+        # which parameters does the staleness test compare exactly?
+        exact = None
+        how = U(stale)
+        if isinstance(stale, ast.Compare) and len(stale.ops) == 1 and isinstance(stale.ops[0], ast.NotEq) and isinstance(stale.comparators[0], ast.Tuple):
+            l, r = stale.left, stale.comparators[0]
+            k = len(r.elts)
+            if isinstance(l, ast.Subscript) and U(l.value) == L and U(l.slice).replace(' ', '') == ':%d' % k and \
+                    [U(e) for e in elts[:k]] == [U(e) for e in r.elts] and all(isinstance(e, ast.Name) for e in r.elts):
+                exact = {e.id for e in r.elts}
+        if exact is None:
+            approx = any(isinstance(n, ast.Call) and U(n.func).split('.')[-1] in ('allclose', 'isclose', 'round', 'abs', 'fabs', 'array_equal') for n in ast.walk(stale))
+            if approx and any(isinstance(n, ast.Name) and n.id == L for n in ast.walk(stale)):
+                self.memo_issues.append((call, L, how, ['<`%s` is not an exact comparison of the arguments: a value remembered for nearby arguments '
+                                                        'is returned>' % how]))
+            return None
+        if vdeps <= exact:
+            return synth(value)
+        self.memo_issues.append((call, L, how, sorted(vdeps - exact)))
+        return None
 
     def fresh(self, base):
         self.counter += 1
